@@ -20,10 +20,14 @@ type Memo struct {
 	// Fn's terms (the helper's parameters replaced by the arguments it is called with).
 	SaveInner *ssa.Call
 	SaveArgs  []ssa.Value
-	Wrapped   *ssa.Call              // the call of the wrapped parser
-	Result    *ssa.Alloc             // the *parsley.Result saved
-	Stored    map[string][]ssa.Value // field name -> stored values
-	Stores    map[string][]*ssa.Store
+	// GetArgs are the arguments of the Get call in Fn's terms (Get may be wrapped by a helper returning its results)
+	GetArgs []ssa.Value
+	// Tr maps a value of the saving helper (one of its parameters) to the argument it stands for in Fn
+	Tr      func(ssa.Value) ssa.Value
+	Wrapped *ssa.Call              // the call of the wrapped parser
+	Result  *ssa.Alloc             // the *parsley.Result saved
+	Stored  map[string][]ssa.Value // field name -> stored values
+	Stores  map[string][]*ssa.Store
 }
 
 func isResultCacheMethod(f *ssa.Function, name string) bool {
@@ -36,6 +40,7 @@ func isResultCacheMethod(f *ssa.Function, name string) bool {
 // memos finds every library function that consults the result cache.
 func (c *Ctx) memos() []*Memo {
 	var out []*Memo
+	getHelpers := map[*ssa.Function]bool{}
 	for _, fn := range c.P.LibFuncs {
 		if fn.Synthetic != "" {
 			continue
@@ -62,6 +67,66 @@ func (c *Ctx) memos() []*Memo {
 					m = &Memo{Fn: fn, Stored: map[string][]ssa.Value{}, Stores: map[string][]*ssa.Store{}}
 				}
 				m.Save = cl
+			}
+		}
+		if m != nil && m.Get != nil {
+			m.GetArgs = append([]ssa.Value{}, m.Get.Call.Args...)
+		}
+		if (m == nil || m.Get == nil) && ssax.IsParserSig(fn.Signature) {
+			// the lookup may have been moved into a helper that returns ResultCache.Get's two results unchanged
+			for _, call := range ssax.Calls(fn) {
+				hc, ok := call.(*ssa.Call)
+				if !ok || hc.Call.IsInvoke() {
+					continue
+				}
+				h := hc.Call.StaticCallee()
+				if h == nil || !c.P.InLib(h) || len(h.Blocks) == 0 || ssax.IsParserSig(h.Signature) || h.Signature.Results().Len() != 2 {
+					continue
+				}
+				var inner *ssa.Call
+				n := 0
+				for _, k := range ssax.Calls(h) {
+					if kc, ok := k.(*ssa.Call); ok && isResultCacheMethod(kc.Call.StaticCallee(), "Get") {
+						inner = kc
+						n++
+					}
+				}
+				if n != 1 {
+					continue
+				}
+				okRet := true
+				for _, r := range ssax.Returns(h) {
+					if len(r.Results) != 2 || !isExtractOf(r.Results[0], inner, 0) || !isExtractOf(r.Results[1], inner, 1) {
+						okRet = false
+					}
+				}
+				if !okRet {
+					continue
+				}
+				if m == nil {
+					m = &Memo{Fn: fn, Stored: map[string][]ssa.Value{}, Stores: map[string][]*ssa.Store{}}
+				}
+				m.Get = hc
+				m.GetArgs = nil
+				for _, a := range inner.Call.Args {
+					v := a
+					s := ssax.Strip(a)
+					for i, p := range h.Params {
+						if ssa.Value(p) == s && i < len(hc.Call.Args) {
+							v = hc.Call.Args[i]
+						}
+					}
+					// a field of the helper's receiver read inside the helper: the same field of the argument
+					if _, isParam := s.(*ssa.Parameter); !isParam {
+						if d := keyDesc(a); d != "" {
+							if eq := c.sameDescIn(fn, d); eq != nil {
+								v = eq
+							}
+						}
+					}
+					m.GetArgs = append(m.GetArgs, v)
+				}
+				getHelpers[h] = true
 			}
 		}
 		if m == nil {
@@ -112,6 +177,7 @@ func (c *Ctx) memos() []*Memo {
 				}
 			}
 		}
+		m.Tr = tr
 		if m.SaveInner != nil {
 			for _, a := range m.SaveInner.Call.Args {
 				m.SaveArgs = append(m.SaveArgs, tr(a))
@@ -158,6 +224,9 @@ func (c *Ctx) memos() []*Memo {
 	var kept []*Memo
 	for _, m := range out {
 		if helper[m.Fn] && m.Get == nil {
+			continue
+		}
+		if getHelpers[m.Fn] && m.Wrapped == nil {
 			continue
 		}
 		kept = append(kept, m)
@@ -395,7 +464,7 @@ func (c *Ctx) ruleCacheIdentity(rule string) {
 			}
 		}
 		// key discipline: Save(idx,pos) == Get(idx,pos)
-		ga, sa := m.Get.Call.Args, m.SaveArgs
+		ga, sa := m.GetArgs, m.SaveArgs
 		if len(ga) == 4 && len(sa) == 4 {
 			if sameSource(ga[1], sa[1]) && sameSource(ga[2], sa[2]) {
 				c.R.Hold(rule, fn+" cache key", "Get and Save use the same parser index and position values")
@@ -407,4 +476,17 @@ func (c *Ctx) ruleCacheIdentity(rule string) {
 	if n == 0 {
 		c.R.Fail("coverage-lost", rule, "memoizing parsers", "-", "-", "no function in parser scope consults parsley.ResultCache: the Memoize anchor was not found")
 	}
+}
+
+// sameDescIn finds in fn a value with the given key descriptor (a load of the same receiver field / captured
+// variable), so that a key read inside a helper can be compared with the keys the function itself uses.
+func (c *Ctx) sameDescIn(fn *ssa.Function, desc string) ssa.Value {
+	for _, b := range fn.Blocks {
+		for _, in := range b.Instrs {
+			if v, ok := in.(ssa.Value); ok && keyDesc(v) == desc {
+				return v
+			}
+		}
+	}
+	return nil
 }
